@@ -271,6 +271,66 @@ def run_est_case(h, tree):
     return parse_shadow(tree, ops, owner, out, nshow, {"UFTRACE_ESTIMATE_RETURN": "1"}, crashed, err)
 
 
+def run_sched_case(h, trees, rng):
+    """several trees, one per thread (thread 0 = initial thread), their operations interleaved at random"""
+    per = []
+    for t, tree in enumerate(trees):
+        ops, owner = full(tree)
+        per.append(list(zip(ops, owner, harness_lines(ops, owner))))
+    pos = [0] * len(per)
+    sched, lines, cur = [], [], None
+    while any(pos[t] < len(per[t]) for t in range(len(per))):
+        t = rng.choice([t for t in range(len(per)) if pos[t] < len(per[t])])
+        burst = rng.choice([1, 1, 2, 5])
+        for _ in range(burst):
+            if pos[t] >= len(per[t]):
+                break
+            if cur != t:
+                lines.append("T %d" % t)
+                cur = t
+            o, n, line = per[t][pos[t]]
+            sched.append((t, o, n))
+            lines.append(line)
+            pos[t] += 1
+    nshow = max(tree_depth(t) for t in trees) + 2
+    rc, out, err = h.run(lines, nshow, {})
+    if rc != 0 or len(out) != len(sched):
+        return {"crashed": True, "stderr": err[-300:], "trees": trees}
+    obs, errno_ok = [], []
+    for (t, o, n), line in zip(sched, out):
+        left, _, right = line.partition(" | ")
+        k = left.split()
+        snap = right.split()
+        u = "UNone"
+        if k[0] in ("E", "PE"):
+            if k[0] == "E" and int(k[1]) != 0:
+                n.h = "N"
+            errno_ok.append(k[2] == "1")
+        elif k[0] in ("CE", "CX"):
+            errno_ok.append(k[1] == "1")
+        elif k[0] == "R":
+            u = "URet %d (%s)" % (int(k[1]), coq_word(k[2]))
+            errno_ok.append(k[3] == "1")
+        obs.append((u, int(snap[0]), snap[1:nshow + 1]))
+    sched2 = [(t, o2) for (t, _, _), o2 in zip(sched, [None] * len(sched))]
+    # operations again, with the hooks libmcount really took
+    per2 = [full(tree)[0] for tree in trees]
+    pos = [0] * len(per2)
+    final = []
+    for (t, _, _) in sched:
+        final.append((t, per2[t][pos[t]]))
+        pos[t] += 1
+    return {"crashed": False, "trees": trees, "sched": final, "obs": obs, "errno": errno_ok, "nshow": nshow}
+
+
+def coq_sched_case(c):
+    return ("{| sd_trees := [%s];\n   sd_sched := [%s];\n   sd_obs := [%s];\n   sd_errno := [%s];\n   sd_nslots := %d |}" % (
+        "; ".join("(%d, %s)" % (t, coq_tree(tr)) for t, tr in enumerate(c["trees"])),
+        "; ".join("(%d, %s)" % (t, coq_op(o)) for t, o in c["sched"]),
+        "; ".join("(%s, %d, [%s])" % (u, idx, "; ".join(coq_word(w) for w in ws)) for (u, idx, ws) in c["obs"]),
+        "; ".join(coq.coq_bool(b) for b in c["errno"]), c["nshow"]))
+
+
 def run_shadow_batch(h, trees, env):
     """several trees in one libmcount process (every tree ends with an empty shadow stack; `Z` clears the
     slots).  If anything looks wrong the trees are re-run one by one."""
@@ -398,7 +458,7 @@ Local Open Scope Z_scope.
 """
 
 
-def evaluate_chunk(ctx, scases, xcases, name, hcases=(), tcases=(), ecases=()):
+def evaluate_chunk(ctx, scases, xcases, name, hcases=(), tcases=(), ecases=(), dcases=()):
     defs = "Local Open Scope nat_scope.\nDefinition scases : list shadow_case := [\n%s\n].\nLocal Open Scope Z_scope.\n" % ";\n".join(coq_shadow_case(c) for c in scases)
     defs += "Definition xcases : list xmm_case := [\n%s\n].\n" % ";\n".join(
         "{| xc_avx := %s; xc_before := %s; xc_clobber := %s; xc_after := %s |}" % (coq.coq_bool(v), coq_yregs(b), coq_yregs(c), coq_yregs(a))
@@ -410,7 +470,11 @@ def evaluate_chunk(ctx, scases, xcases, name, hcases=(), tcases=(), ecases=()):
         coq_stop_case(c) for c in tcases)
     defs += "Local Open Scope nat_scope.\nDefinition ecases : list shadow_case := [\n%s\n].\nLocal Open Scope Z_scope.\n" % ";\n".join(
         coq_shadow_case(c) for c in ecases)
+    defs += "Local Open Scope nat_scope.\nDefinition dcases : list sched_case := [\n%s\n].\nLocal Open Scope Z_scope.\n" % ";\n".join(
+        coq_sched_case(c) for c in dcases)
     res = coq.run_cases(ctx, name, PRE, defs, [
+        ("d_mismatch", "bad_indices sched_agrees dcases 0"),
+        ("d_violations", "bad_indices sched_ok dcases 0"),
         ("e_mismatch", "bad_indices est_agrees ecases 0"),
         ("e_violations", "bad_indices est_ok ecases 0"),
         ("t_mismatch", "bad_indices stop_agrees tcases 0"),
@@ -427,7 +491,7 @@ def evaluate_chunk(ctx, scases, xcases, name, hcases=(), tcases=(), ecases=()):
     return {k: coq.parse_nat_list(v) for k, v in res.items()}
 
 
-def evaluate(ctx, scases, xcases, name="cases", chunk=50, hcases=(), tcases=(), ecases=()):
+def evaluate(ctx, scases, xcases, name="cases", chunk=50, hcases=(), tcases=(), ecases=(), dcases=()):
     """model and checker evaluated by vm_compute inside Coq; chunks run in parallel coqc processes"""
     jobs = []
     for k, j in enumerate(range(0, max(len(scases), 1), chunk)):
@@ -435,11 +499,12 @@ def evaluate(ctx, scases, xcases, name="cases", chunk=50, hcases=(), tcases=(), 
     with concurrent.futures.ThreadPoolExecutor(max_workers=6) as ex:
         rs = list(ex.map(lambda jb: evaluate_chunk(ctx, jb[1], jb[2], "%s_%d" % (name, jb[0]),
                                                    hcases if jb[0] == 0 else (), tcases if jb[0] == 0 else (),
-                                                   ecases if jb[0] == 0 else ()), jobs))
+                                                   ecases if jb[0] == 0 else (), dcases if jb[0] == 0 else ()), jobs))
     if any(r is None for r in rs):
         return None
     res = {"s_mismatch": [], "s_violations": [], "x_mismatch": [], "x_violations": [], "h_mismatch": [], "h_violations": [],
-           "t_mismatch": [], "t_violations": [], "e_mismatch": [], "e_violations": []}
+           "t_mismatch": [], "t_violations": [], "e_mismatch": [], "e_violations": [],
+           "d_mismatch": [], "d_violations": []}
     for (j, _, _), r in zip(jobs, rs):
         res["s_mismatch"] += [j + i for i in r["s_mismatch"]]
         res["s_violations"] += [j + i for i in r["s_violations"]]
@@ -451,6 +516,8 @@ def evaluate(ctx, scases, xcases, name="cases", chunk=50, hcases=(), tcases=(), 
         res["t_violations"] += r["t_violations"]
         res["e_mismatch"] += r["e_mismatch"]
         res["e_violations"] += r["e_violations"]
+        res["d_mismatch"] += r["d_mismatch"]
+        res["d_violations"] += r["d_violations"]
     return res
 
 
@@ -874,11 +941,24 @@ def run(ctx):
         tags = set(["estimate-return"])
         tree_tags(c["tree"], tags)
         ctx.case(key=("est", coq_tree(c["tree"])), tags=sorted("est:" + t for t in tags if not t.startswith("leaf")))
-    ctx.log("ran %d call trees, %d xmm-pair, %d hook-call xmm, %d finish and %d estimate-return cases on libmcount"
-            % (len(scases), len(xcases), len(hcases), len(tcases), len(ecases)))
-    res = evaluate(ctx, [c for c in scases if not c["crashed"]], xcases, hcases=hcases, tcases=tcases, ecases=ecases)
+    dcases = []
+    for i in range(ctx.n(16, 200)):
+        nth = ctx.rng.choice([2, 2, 3, 4])
+        trees = [gen_tree(ctx.rng, ctx.rng.choice(["pg", "tail", "plt", "cygpg", "mixed"]), maxd=4, budget=8) for _ in range(nth)]
+        c = run_sched_case(h, trees, ctx.rng)
+        if c["crashed"]:
+            ctx.violation("libmcount crashed while several threads drove call trees",
+                          {"kind": "sched", "trees": [json_tree(t) for t in trees], "stderr": c["stderr"]}, True)
+            continue
+        dcases.append(c)
+        ctx.case(key=("sched", tuple(coq_tree(t) for t in trees), tuple(t for t, _ in c["sched"])),
+                 tags=["threads=%d" % nth, "schedule:switches=%s" % ("many" if sum(1 for a, b in zip(c["sched"], c["sched"][1:]) if a[0] != b[0]) > 10 else "few")],
+                 size=len(c["sched"]))
+    ctx.log("ran %d call trees, %d xmm-pair, %d hook-call xmm, %d finish, %d estimate-return and %d thread-schedule cases on libmcount"
+            % (len(scases), len(xcases), len(hcases), len(tcases), len(ecases), len(dcases)))
+    res = evaluate(ctx, [c for c in scases if not c["crashed"]], xcases, hcases=hcases, tcases=tcases, ecases=ecases, dcases=dcases)
     ctx.log("model evaluated in Coq:", res)
-    verdict(ctx, [c for c in scases if not c["crashed"]], xcases, res, hcases, tcases, ecases)
+    verdict(ctx, [c for c in scases if not c["crashed"]], xcases, res, hcases, tcases, ecases, dcases)
     # ---- monitors
     objdump_monitor(ctx, objdir)
     ctx.log("objdump monitor done")
@@ -889,9 +969,19 @@ def run(ctx):
     ctx.extra["xmm_cases"] = len(xcases)
 
 
-def verdict(ctx, scases, xcases, res, hcases=(), tcases=(), ecases=()):
+def verdict(ctx, scases, xcases, res, hcases=(), tcases=(), ecases=(), dcases=()):
     if res is None:
         return
+    for i in res.get("d_violations", [])[:3]:
+        c = dcases[i]
+        ctx.violation("C01 violated with several threads: a return did not go to its real caller or errno changed",
+                      {"kind": "sched", "trees": [json_tree(t) for t in c["trees"]], "schedule": [t for t, _ in c["sched"]],
+                       "observed": c["obs"][:200]}, True)
+    if res.get("d_mismatch") and not res.get("d_violations"):
+        c = dcases[res["d_mismatch"][0]]
+        ctx.violation("per-thread shadow-stack model (Shadow.run_sched) and libmcount disagree on %d thread schedules" % len(res["d_mismatch"]),
+                      {"kind": "sched", "trees": [json_tree(t) for t in c["trees"]], "schedule": [t for t, _ in c["sched"]],
+                       "observed": c["obs"][:200]}, False)
     for i in res.get("e_violations", [])[:3]:
         c = ecases[i]
         ctx.violation("C01 violated under --estimate-return: a return did not go to its real caller, errno changed or a "
